@@ -8,6 +8,7 @@ package mtproto
 import (
 	"context"
 	"crypto/rsa"
+	"encoding/binary"
 	"io"
 	"reflect"
 	"sync"
@@ -324,7 +325,7 @@ func (m *MTProto) processResponse(msg messages.Common) error {
 	verifYield("dispatch", int64(msg.GetMsgID()))
 	var data tl.Object
 	var err error
-	if et, ok := m.expectedTypes.Get(msg.GetMsgID()); ok && len(et) > 0 {
+	if et, ok := m.expectedTypes.Get(reqMsgIDOf(msg)); ok && len(et) > 0 {
 		data, err = tl.DecodeUnknownObject(msg.GetMsg(), et...)
 	} else {
 		data, err = tl.DecodeUnknownObject(msg.GetMsg())
@@ -409,6 +410,17 @@ messageTypeSwitching:
 	}
 
 	return nil
+}
+
+// reqMsgIDOf returns the id of the request which is answered by msg (if msg is rpc_result), cause hints for
+// the decoder are stored under id of the request, not under id of the server's message. For any other
+// message it returns 0, there are no hints under this id.
+func reqMsgIDOf(msg messages.Common) int {
+	body := msg.GetMsg()
+	if len(body) < tl.WordLen+tl.LongLen || binary.LittleEndian.Uint32(body) != objects.CrcRpcResult {
+		return 0
+	}
+	return int(int64(binary.LittleEndian.Uint64(body[tl.WordLen:])))
 }
 
 // tryToProcessErr пытается автоматически решить ошибку полученную от сервера. в случае успеха вернет nil,
